@@ -103,6 +103,20 @@ theorem C08_slave_follows_master (c : Cfg) (s : St) (hnm : (s.modes.getD c.me {}
     | none => rfl
     | some m => rfl
 
+/-- the follow-the-Master decisions that `FiniteStateMachine.set_state` refuses: pairs (state of the Slave, state of its Master),
+    the Slave being in a state whose class follows the Master (flag of the regenerated `fsmDecisions`), for which the regenerated
+    transition table has no edge -/
+def followRefused : List (Nat × Nat) :=
+  (Supv.Gen.fsmDecisions.filter (·.2.2)).flatMap (fun d =>
+    ((List.range 9).filter (fun y => y ≠ d.1 ∧ !(((Supv.Gen.fsmTable.find? (·.1 == d.1)).map (·.2)).getD []).contains y)).map (fun y => (d.1, y)))
+
+/-- **C08 (known finding `C08:free:parked:DISTRIBUTION:master-in-CONCILIATION`).**  Codes: 3 DISTRIBUTION, 4 OPERATION, 5 CONCILIATION,
+    8 FINAL.  Of the decisions "be where my Master is" (`C08_slave_follows_master`) the table of the CURRENT source refuses exactly
+    six; a Master in DISTRIBUTION or FINAL does not stay there, but a Master in CONCILIATION does for as long as the conflicts are
+    left to the user: a Slave that reaches DISTRIBUTION at that time (3, 5) stays parked.  Found on the real code by the
+    free-running stage; the repair a maintainer would make is forbidden by an existing test (see known_findings.jsonl). -/
+theorem C08_follow_master_refused : followRefused = [(3, 5), (3, 8), (4, 3), (4, 8), (5, 3), (5, 8)] := by decide
+
 -- non-vacuity: instance 1 of two, both RUNNING and agreeing on Master 0 which is in OPERATION
 def exCfg : Cfg := { n := 2, me := 1, nickRank := [0, 1], core := [], initial := [0, 1], optStrict := false, optList := true,
                      optTimeout := false, optCore := false, optUser := false, syncTimeout := 20480, inactivity := 2, autoFence := false,
